@@ -331,6 +331,11 @@ def run(world, tier, info, only=None):
             e = f.describe(t["args"][1], 10)
             par, leaf = _parity_and_leaf(e)
             lw = words(leaf or "")
+            if lw and not any(x == fw or OPP.get(x) == fw for x in lw for fw in fn_w):
+                # the fallback is named on another axis (polarity vs synchronicity vs edge) than the function
+                n6 += 1
+                ck.ob("R6", "bridge:%s<-%s" % (_short(p), leaf), False, site(s, t["l"]),
+                      "%s falls back to %s, which is about %s, not %s: the two settings are independent" % (_fn_name(p), leaf, "/".join(sorted(lw)), "/".join(sorted(fn_w))))
             for fw in fn_w:
                 for x in lw:
                     if x == fw or OPP.get(x) == fw:
@@ -434,6 +439,26 @@ def run(world, tier, info, only=None):
                         want = "reset_type" if abstract == "Reset" else "clock_type"
                         ck.ob("R7", "abstract-%s-uses-build-option:%s" % (abstract.lower(), _short(p)), flds[-1].endswith(want), site(s, stmt[3]),
                               "the abstract %s type falls back to build.%s (found %s)" % (abstract.lower(), want, ".".join(flds)))
+        # the same through an or-pattern (`TypeKind::Clock | TypeKind::ClockPosedge => ClockType::PosEdge`): no single-variant fact holds
+        # in the shared arm, so follow the abstract variant's own switch edge
+        for bi, b in enumerate(f.blocks):
+            t = b["t"]
+            if b.get("cu") or t["t"] != "sw" or not (t.get("enum") or "").endswith("TypeKind"):
+                continue
+            for v, tgt, vn in t["vals"]:
+                if vn not in ("Reset", "Clock"):
+                    continue
+                cur, seen = tgt, set()
+                while cur is not None and cur not in seen and len(seen) < 8:
+                    seen.add(cur)
+                    for stmt in f.blocks[cur]["s"]:
+                        if stmt[0] == "=" and stmt[2][0] == "agg" and isinstance(stmt[2][1], dict) and not stmt[2][2] and \
+                                re.search(r"build::(ResetType|ClockType)$", stmt[2][1].get("adt") or ""):
+                            nfb += 1
+                            ck.ob("R7", "abstract-%s-uses-build-option:%s" % (vn.lower(), _short(p)), False, site(s, stmt[3]),
+                                  "the abstract %s type is hard-wired to %s instead of following the [build] option" % (vn.lower(), stmt[2][1].get("variant")))
+                    sc = [x for x in f.succ[cur] if not f.blocks[x].get("cu")]
+                    cur = sc[0] if len(sc) == 1 else None
     ck.floor("R7", "abstract reset/clock fallbacks in the emitter", nfb, 4)
     ck.analysed = {"functions": [st.p for st in sites], "events": dict(n_events)}
     return ck.finish(info)
